@@ -121,8 +121,10 @@ def lake_build(targets, timeout=3000):
 
 
 def obligations(pid):
-    ob = json.load(open(os.path.join(LEAN, "obligations.json")))
-    return ob.get(pid, [])
+    p = os.path.join(LEAN, "obligations", pid + ".json")
+    if not os.path.exists(p):
+        return []
+    return json.load(open(p))["theorems"]
 
 
 def audit_axioms(pid, thms):
